@@ -686,10 +686,10 @@ theorem destroy_spec (s : St) (l : Hdr) (cs : List Cell) (m : Mem)
 including `last` -/
 theorem iterAddAt_spec (s : St) (l : Hdr) (pre post : List Cell) (a : Cell) (x : Nat) (m : Mem)
     (r : Repr s.heap l (pre ++ a :: post)) (hb : ∀ y, y ∈ idsOf (pre ++ a :: post) → y < s.fresh) :
-    ((m.allocT l.triple).1 = false → iterAddAt s l a.1 (pre.length + 1) x m = (.errAlloc, s, l, (m.allocT l.triple).2)) ∧
+    ((m.allocT l.triple).1 = false → iterAddAt s l a.1 x m = (.errAlloc, s, l, (m.allocT l.triple).2)) ∧
     ((m.allocT l.triple).1 = true →
-      (iterAddAt s l a.1 (pre.length + 1) x m).1 = .ok ∧ (iterAddAt s l a.1 (pre.length + 1) x m).2.2.2 = (m.allocT l.triple).2 ∧
-      Keeps s (iterAddAt s l a.1 (pre.length + 1) x m).2.1 l (iterAddAt s l a.1 (pre.length + 1) x m).2.2.1
+      (iterAddAt s l a.1 x m).1 = .ok ∧ (iterAddAt s l a.1 x m).2.2.2 = (m.allocT l.triple).2 ∧
+      Keeps s (iterAddAt s l a.1 x m).2.1 l (iterAddAt s l a.1 x m).2.2.1
         (pre ++ a :: post) (pre ++ a :: (s.fresh, x) :: post)) := by
   unfold iterAddAt
   refine ⟨fun ha => by simp [ha], fun ha => ?_⟩
@@ -698,6 +698,11 @@ theorem iterAddAt_spec (s : St) (l : Hdr) (pre post : List Cell) (a : Cell) (x :
   have hseg0 : Seg (setData s.alloc.2.heap s.fresh x) none (pre ++ a :: post) none :=
     Seg_frame (fun b hbm => setData_alloc_ne s x b (fun e => hf (by rw [← e]; exact hbm))) r.seg
   obtain ⟨lb, lf⟩ := linkAfter_fresh s.fresh x hseg0 r.nodup hf (setData_alloc s x)
+  have hnew : (nd (linkAfter (setData s.alloc.2.heap s.fresh x) a.1 s.fresh) s.fresh).next = nxt post none := by
+    have lb' : Seg (linkAfter (setData s.alloc.2.heap s.fresh x) a.1 s.fresh) none ((pre ++ [a]) ++ (s.fresh, x) :: post) none := by
+      simpa using lb
+    rw [nd_of (Seg_split lb').2.1]
+  rw [hnew]
   refine ⟨by first | trivial | rfl, by first | trivial | rfl, ⟨?_, lb, ?_, ?_, ?_⟩, ?_, Nat.le_succ _, ?_, ?_⟩
   · have := r.nodup
     simp only [idsOf_append, idsOf_cons] at this hf ⊢
@@ -723,17 +728,15 @@ theorem iterAddAt_spec (s : St) (l : Hdr) (pre post : List Cell) (a : Cell) (x :
       rw [nxt_append, nxt_append]; rfl
     rw [e2]; split <;> exact this
   · have ht := r.tail
-    by_cases hix : pre.length + 1 = l.size
-    · have hp : post = [] := by
-        rw [r.size] at hix
-        simp only [List.length_append, List.length_cons] at hix
-        exact List.eq_nil_of_length_eq_zero (by omega)
-      subst hp
-      simp only [hix, if_true]
+    by_cases hp : post = []
+    · subst hp
+      simp only [nxt, if_true]
       rw [lastOr_append]; rfl
-    · simp only [hix, if_false]
-      have hp : post ≠ [] := by
-        intro e; subst e; rw [r.size] at hix; simp at hix
+    · have hq : nxt post none ≠ none := by
+        cases post with
+        | nil => exact absurd rfl hp
+        | cons c r => simp [nxt]
+      simp only [hq, if_false]
       rw [ht, lastOr_append, lastOr_append]
       simp only [lastOr_cons]
       rw [lastOr_of_ne' hp (some a.1), lastOr_of_ne' hp (some s.fresh)]
@@ -768,5 +771,73 @@ theorem diterAddAt_spec (s : St) (l : Hdr) (pre post : List Cell) (a : Cell) (x 
   rw [e]
   refine ⟨fun ha => ?_, hat⟩
   exact (addAt_spec s l (pre ++ a :: post) x pre.length m r hb).2.1 hi ha
+
+/-! ### `cc_list_filter_mut` -/
+
+theorem filterMutLoop_none (pr : Nat → Bool) (k : Nat) (s : St) (l : Hdr) (m : Mem) :
+    filterMutLoop pr k s l none m = (s, l, m) := by cases k <;> rfl
+
+theorem filter_length_le (pr : Nat → Bool) (cs : List Cell) : (cs.filter (fun c => pr c.2)).length ≤ cs.length :=
+  List.length_filter_le _ _
+
+/-- the loop, standing at the first node of `rest` with `kept` already decided: exactly the nodes of `rest` that fail the
+predicate leave the chain (one `mem_free` each), every other node keeps its identity and its place -/
+theorem filterMutLoop_spec (pr : Nat → Bool) : ∀ (rest kept : List Cell) (k : Nat) (s : St) (l : Hdr) (m : Mem),
+    Repr s.heap l (kept ++ rest) → (∀ x, x ∈ idsOf (kept ++ rest) → x < s.fresh) → rest.length ≤ k →
+    (filterMutLoop pr k s l (nxt rest none) m).2.2 =
+      Mem.freeN l.triple (rest.length - (rest.filter (fun c => pr c.2)).length) m ∧
+    Keeps s (filterMutLoop pr k s l (nxt rest none) m).1 l (filterMutLoop pr k s l (nxt rest none) m).2.1
+      (kept ++ rest) (kept ++ rest.filter (fun c => pr c.2))
+  | [], kept, k, s, l, m, r, hb, _ => by
+    simp only [show nxt ([] : List Cell) none = none from rfl, filterMutLoop_none, List.filter_nil, List.length_nil,
+      Nat.sub_self, Mem.freeN]
+    exact ⟨by first | trivial | rfl, r, rfl, Nat.le_refl _, hb, fun _ _ _ => rfl⟩
+  | a :: rest, kept, 0, s, l, m, _, _, hk => by simp at hk
+  | a :: rest, kept, k + 1, s, l, m, r, hb, hk => by
+    obtain ⟨_, ha, _⟩ := Seg_split r.seg
+    have hk' : rest.length ≤ k := by simpa using hk
+    have hfl := filter_length_le pr rest
+    simp only [nxt_cons, filterMutLoop, nd_of ha]
+    by_cases hp : pr a.2 = true
+    · have r' : Repr s.heap l ((kept ++ [a]) ++ rest) := by simpa using r
+      have hb' : ∀ x, x ∈ idsOf ((kept ++ [a]) ++ rest) → x < s.fresh := by simpa using hb
+      obtain ⟨i1, i2⟩ := filterMutLoop_spec pr rest (kept ++ [a]) k s l m r' hb' hk'
+      simp only [hp, Bool.not_true, Bool.false_eq_true, if_false, List.filter_cons, if_true, List.length_cons]
+      refine ⟨by rw [i1]; congr 1; omega, ?_⟩
+      have e1 : kept ++ a :: rest = (kept ++ [a]) ++ rest := by simp
+      have e2 : kept ++ a :: rest.filter (fun c => pr c.2) = (kept ++ [a]) ++ rest.filter (fun c => pr c.2) := by simp
+      rw [e1, e2]; exact i2
+    · have hp' : pr a.2 = false := by simpa using hp
+      obtain ⟨_, u2, uk⟩ := unlinkn_spec s l kept rest a m r hb
+      obtain ⟨i1, i2⟩ := filterMutLoop_spec pr rest kept k (unlinkn s l a.1 m).2.1 (unlinkn s l a.1 m).2.2.1
+        (unlinkn s l a.1 m).2.2.2 uk.repr uk.bound hk'
+      simp only [hp', Bool.not_false, if_true, List.filter_cons, Bool.false_eq_true, if_false, List.length_cons]
+      refine ⟨?_, i2.repr, i2.triple.trans uk.triple, Nat.le_trans uk.mono i2.mono, i2.bound, fun b hb1 hb2 => ?_⟩
+      · rw [i1, u2, uk.triple]
+        have : rest.length + 1 - (rest.filter (fun c => pr c.2)).length =
+            (rest.length - (rest.filter (fun c => pr c.2)).length) + 1 := by omega
+        rw [this]; rfl
+      · have hb3 : b ∉ idsOf (kept ++ rest) := by
+          intro hm; apply hb1
+          simp only [idsOf_append, idsOf_cons, List.mem_append, List.mem_cons] at hm ⊢
+          rcases hm with hm | hm
+          · exact Or.inl hm
+          · exact Or.inr (Or.inr hm)
+        rw [i2.frame b hb3 (Nat.lt_of_lt_of_le hb2 uk.mono)]
+        exact uk.frame b hb1 hb2
+
+/-- **`cc_list_filter_mut`** -/
+theorem filterMut_spec (pr : Nat → Bool) (s : St) (l : Hdr) (cs : List Cell) (m : Mem) (r : Repr s.heap l cs)
+    (hb : ∀ x, x ∈ idsOf cs → x < s.fresh) :
+    (cs = [] → filterMut pr s l m = (.errOutOfRange, s, l, m)) ∧
+    (cs ≠ [] → (filterMut pr s l m).1 = .ok ∧
+      (filterMut pr s l m).2.2.2 = Mem.freeN l.triple (cs.length - (cs.filter (fun c => pr c.2)).length) m ∧
+      Keeps s (filterMut pr s l m).2.1 l (filterMut pr s l m).2.2.1 cs (cs.filter (fun c => pr c.2))) := by
+  unfold filterMut
+  refine ⟨fun e => by subst e; simp [r.size], fun hne => ?_⟩
+  have hsz : l.size ≠ 0 := by rw [r.size]; exact fun e => hne (List.eq_nil_of_length_eq_zero e)
+  rw [if_neg hsz, r.size, r.head]
+  obtain ⟨i1, i2⟩ := filterMutLoop_spec pr cs [] cs.length s l m (by simpa using r) (by simpa using hb) (Nat.le_refl _)
+  exact ⟨rfl, i1, by simpa using i2⟩
 
 end CC.PList
